@@ -594,7 +594,7 @@ func genHostileFont(t *rapid.T) (*t1ref.RawFont, string) {
 func TestP3Fonts(t *testing.T) {
 	rec := ev.New("C01", "fonts")
 	defer rec.Finish(t)
-	rec.Rule("type1.Read on structure-aware hostile fonts in all four containers (wrapped and encrypted correctly, so that they reach the charstring decoder): lenIV in {minint, -2^40, -1, 0..8, 100000, 2^31, maxint, non-integers}; charstrings and subroutines that are random sequences over all command codes (valid, reserved and undefined) and all number formats incl. truncated multi-byte numbers, every (argN, index) pair in -2..5 x -1..5 for callothersubr, pop on an empty stack, callsubr with out-of-range indices, div by zero, seac with arbitrary operands; chains of 2-148 composites each built from earlier composites, from itself or from later ones (a composite's outline would double at every level); subroutine call trees with fan-out 1-60 at depth 1-12 and recursive subroutines; Subrs/Encoding/FontMatrix/FontInfo/Private entries of the wrong type; two definefonts; hostile PostScript after definefont; plus valid fonts with random byte mutations, valid fonts whose clear-text decimal tokens are replaced by hostile constants, and raw random bytes. Child-process oracle as above. Non-trivial: the input got past the container into the interpreter (heuristic: the file was produced by the structured writer); distinct by bytes.")
+	rec.Rule("type1.Read on structure-aware hostile fonts in all four containers (wrapped and encrypted correctly, so that they reach the charstring decoder): lenIV in {minint, -2^40, -1, 0..8, 100000, 2^31, maxint, non-integers}; charstrings and subroutines that are random sequences over all command codes (valid, reserved and undefined) and all number formats incl. truncated multi-byte numbers, every (argN, index) pair in -2..5 x -1..5 for callothersubr, pop on an empty stack, callsubr with out-of-range indices, div by zero, seac with arbitrary operands; chains of 2-148 composites each built from earlier composites, from itself or from later ones (a composite's outline would double at every level); every command code (one-byte 0-31, escapes 12 0-40) at every operand-stack depth 0-27 with and without values waiting on the PostScript stack, followed by pop (enumerated); subroutine call trees with fan-out 1-60 at depth 1-12 and recursive subroutines; Subrs/Encoding/FontMatrix/FontInfo/Private entries of the wrong type; two definefonts; hostile PostScript after definefont; plus valid fonts with random byte mutations, valid fonts whose clear-text decimal tokens are replaced by hostile constants, and raw random bytes. Child-process oracle as above. Non-trivial: the input got past the container into the interpreter (heuristic: the file was produced by the structured writer); distinct by bytes.")
 	var cases []*hcase
 	ev.SetupRapid(10000, 320000)
 	rapid.Check(t, func(t *rapid.T) {
@@ -627,6 +627,39 @@ func TestP3Fonts(t *testing.T) {
 			cases = append(cases, &hcase{Target: "type1", Data: t1ref.WriteRaw(f), Label: label})
 		}
 	})
+	// every charstring command (all one-byte codes 0-31 and escapes 12 0-40)
+	// at every operand-stack depth 0..27, with and without a preceding
+	// othersubr call that leaves values to pop: the limits of the decoder's
+	// stacks are met exactly, one below and one above
+	hs := []byte{139, 139, 13}
+	k := 0
+	for depth := 0; depth <= 27; depth++ {
+		for code := 0; code < 32+41; code++ {
+			for prelude := 0; prelude < 2; prelude++ {
+				k++
+				if !ev.Mine(k) {
+					continue
+				}
+				cs := append([]byte{}, hs...)
+				if prelude == 1 {
+					// 7 8 2 3 callothersubr: two values wait on the PostScript stack
+					cs = append(cs, 146, 147, 141, 142, 12, 16)
+				}
+				for i := 0; i < depth; i++ {
+					cs = append(cs, byte(139+i%9))
+				}
+				if code < 32 {
+					cs = append(cs, byte(code))
+				} else {
+					cs = append(cs, 12, byte(code-32))
+				}
+				cs = append(cs, 12, 17, 14) // pop, endchar
+				f := &t1ref.RawFont{Container: k % 4, LenIVActual: 4, Subrs: [][]byte{{11}, {139, 11}},
+					Glyphs: []t1ref.RawGlyph{{Name: ".notdef", Code: append(append([]byte{}, hs...), 14)}, {Name: "A", Code: cs}}}
+				cases = append(cases, &hcase{Target: "type1", Data: t1ref.WriteRaw(f), Label: "command-at-depth"})
+			}
+		}
+	}
 	for _, c := range cases {
 		rec.Class("font:" + c.Label)
 	}
